@@ -12,15 +12,15 @@ CHECKS = {
    note="NUL-free names and strings; configurations both writers accept (a writer rejecting an input is counted, not judged); ASan leak detection off.",
    technique="runtime monitoring: differential oracle (two implementations + source records) with compiler sanitizers (ASan, UBSan) on the C half"),
  "C18": dict(level="exploration", design="5/C18",
-   text="Mutated tables (16 mutation kinds incl. length-field edits with the footer CRC repaired, splices, zlib bombs, index scribbles, short files) of valid tables of every layout are fed, in a child process per batch, to NewReader and then to every reader entry point (scans, seeks, ReadRef, ReadLogAt, RefsFor, merged views with a valid table). Monitors: recover() around every call (panic = violation, signature = topmost reftable frame + panic class), child death (fatal error, OOM, signal), bytes allocated per call (runtime/metrics) <= 64 MiB + 64*len, records per iterator <= 2^24 + 8*len, CPU time per input <= 30 s (from /proc/<pid>/stat). The witness input is written to disk before the call.",
-   note="Mutation-based, not coverage-guided, in this tier; inputs up to ~24 KB. The child has a 6 GiB address-space limit.",
+   text="Mutated tables (16 mutation kinds incl. length-field edits with the footer CRC repaired, splices, zlib bombs, index scribbles, short files) of valid tables of every layout are fed, in a child process per batch, to NewReader and then to every reader entry point (scans, seeks, ReadRef, ReadLogAt, RefsFor, merged views with a valid table). Monitors: recover() around every call (panic = violation, signature = topmost reftable frame + panic class), child death (fatal error, OOM, signal), bytes allocated per call (runtime/metrics) <= 64 MiB + 64*len, records per iterator <= 2^24 + 8*len, CPU time per input <= 30 s (from /proc/<pid>/stat). The witness input is written to disk before the call. Thorough adds Go native coverage-guided fuzzing (FuzzReader, execution-count budget) with the same probe.",
+   note="Quick tier is mutation-based only; inputs up to ~24 KB. The child has a 6 GiB address-space limit.",
    technique="runtime monitoring: crash/allocation/iteration/CPU monitors around the real reader on mutated inputs, process isolation per batch"),
  "C19": dict(level="exploration", design="5/C19",
    text="The harness is built with -race. 16..32 goroutines run a PRNG-chosen mix of scans, seeks, ReadRef and RefsFor on ONE shared Reader (memory- and file-backed) and ONE shared Merged (raw and Stack.Merged()); every result is compared with the sequentially precomputed answer; the race detector's log (GORACE log_path, halt_on_error=0) is parsed by the driver and any report with a reftable frame is a violation (reports are deduplicated by the pair of outermost reftable functions).",
    note="The race detector only reports races that occur in the interleavings of this run; rounds are repeated. Concurrent use of one Stack or one Iterator is not promised and not exercised.",
    technique="Go race detector (-race) over a repeated concurrent read workload + result comparison against sequential answers"),
  "C04": dict(level="exploration", design="5/C04", engine="engineA",
-   text="2..4 real Stack handles run scripts on one real directory under a token-passing scheduler that decides, at every hooked filesystem call, which process goes next: pause sweeps (A parked before each of its filesystem operations while the others run) over ordered pairs of operation kinds and several initial stacks, nested sweeps over triples, and PCT/uniform random schedules. Oracles: M-commit on every rename onto tables.list (new view = old view, or old view + the committer's transaction), Add result <=> committed exactly once, final fresh view = fold of commits, porcupine linearizability check of the client-boundary history.",
+   text="2..4 real Stack handles run scripts on one real directory under a token-passing scheduler that decides, at every hooked filesystem call, which process goes next: pause sweeps (A parked before each of its filesystem operations while the others run) over ordered pairs of operation kinds and several initial stacks, nested sweeps over triples, and PCT/uniform random schedules. Oracles: M-commit on every rename onto tables.list (new view = old view, or old view + the committer's transaction), Add result <=> committed exactly once, final fresh view = fold of commits, porcupine linearizability check of the client-boundary history. Cross-validated by engine B: real worker processes with injected delays, a seqlock observer and kill -9, checked offline with the same oracles.",
    note="Processes are goroutines of one OS process; in-memory code between two filesystem calls runs atomically (exact for separate processes, which share no memory). Real kernel semantics for O_EXCL/rename/unlink (tmpfs). Verdict covers the schedules actually run.",
    technique="runtime monitoring: online refinement monitor on hooked filesystem operations under a seeded scheduler + offline linearizability checking (porcupine) of recorded histories"),
  "C05": dict(level="exploration", design="5/C05", engine="engineA",
